@@ -3,6 +3,7 @@ package props
 import (
 	"context"
 	"fmt"
+	"time"
 
 	"github.com/aws/aws-sdk-go-v2/aws"
 	kmsv2 "github.com/aws/aws-sdk-go-v2/service/kms"
@@ -130,7 +131,7 @@ func runC10KMS(t *simrt.Tape, o Opts) Outcome {
 			nodes[r] = &fakeRegion{s: s, region: r, arn: arn[r], master: mk, log: &log, handed: &handed, rnd: rnd}
 		}
 		crypto := aead.NewAES256GCM()
-		build := func(v2 bool) (appencryption.KeyManagementService, error) {
+		build := func(v2 bool, arn map[string]string) (appencryption.KeyManagementService, error) {
 			if v2 {
 				return pluginv2.NewBuilder(crypto, arn).WithPreferredRegion(regions[pref]).WithAWSConfig(aws.Config{}).
 					WithKMSFactory(func(cfg aws.Config, _ ...func(*kmsv2.Options)) pluginv2.AWSClient { return fakeV2{nodes[cfg.Region]} }).Build()
@@ -144,11 +145,23 @@ func runC10KMS(t *simrt.Tape, o Opts) Outcome {
 			}
 			return k, nil
 		}
-		wrapper, err := build(pair&1 == 1)
+		wrapper, err := build(pair&1 == 1, arn)
 		if err != nil {
 			return
 		}
-		unwrapper, err := build(pair&2 == 2)
+		// the reader's configuration may have been re-pointed at a new master key in some regions
+		// while the old key still exists there (and still answers for ciphertexts made under it)
+		arnNow := arn
+		if t.Choose(3, "reconfigured") == 1 {
+			arnNow = map[string]string{}
+			for _, r := range regions {
+				arnNow[r] = arn[r]
+				if t.Choose(2, "reconfigured.region") == 1 {
+					arnNow[r] = arn[r] + "-2"
+				}
+			}
+		}
+		unwrapper, err := build(pair&2 == 2, arnNow)
 		if err != nil {
 			return
 		}
@@ -179,8 +192,17 @@ func runC10KMS(t *simrt.Tape, o Opts) Outcome {
 				}
 			}
 		}
+		if t.Choose(2, "slow-regions") == 1 {
+			for _, r := range regions {
+				nodes[r].lat = regionLatencies[t.Choose(len(regionLatencies), "region.latency")]
+			}
+		}
 		blob, err := wrapper.EncryptKey(context.Background(), sk)
 		zero("EncryptKey")
+		// answers that arrive after the call gave up on them are data keys too
+		s.Advance(2 * time.Minute)
+		s.Idle()
+		zero("EncryptKey (late regional answers included)")
 		if err != nil || len(viols) > 0 {
 			return
 		}
@@ -193,6 +215,9 @@ func runC10KMS(t *simrt.Tape, o Opts) Outcome {
 		_, derr := unwrapper.DecryptKey(context.Background(), blob)
 		unwrapped = derr == nil
 		zero("DecryptKey")
+		s.Advance(2 * time.Minute)
+		s.Idle()
+		zero("DecryptKey (late regional answers included)")
 	})
 	out := Outcome{Viols: viols}
 	st.Nontrivial = unwrapped
